@@ -224,6 +224,22 @@ def setDisjoint {α} [DecidableEq α] (a b : List α) : Bool := a.all (fun x => 
 /-- `x % 1.0` on a float: `x - floor(x)`, in `[0, 1)` (python / numpy `%` takes the sign of the divisor) -/
 def fmod1 (x : Rat) : Rat := x - (Rat.floor x : Rat)
 
+/-- `for x in xs: <body updating st, may break>`: the body yields the new state and whether it executed `break` -/
+def forBreak {α σ} : List α → σ → (σ → α → σ × Bool) → σ
+  | [], st, _ => st
+  | x :: xs, st, f => if (f st x).2 then (f st x).1 else forBreak xs (f st x).1 f
+/-- the same when the body may raise -/
+def forBreakM? {α σ} : List α → σ → (σ → α → Option (σ × Bool)) → Option σ
+  | [], st, _ => some st
+  | x :: xs, st, f =>
+    match f st x with
+    | none => none
+    | some (st', true) => some st'
+    | some (st', false) => forBreakM? xs st' f
+
+/-- `numpy.linalg.norm(v) < d` for a 3-vector: `d > 0` and `‖v‖² < d²` (no square root: exact on rationals) -/
+def normLt (v : Vec3) (d : Rat) : Bool := decide (0 < d) && decide (v.x * v.x + v.y * v.y + v.z * v.z < d * d)
+
 end Mofun.Generated.Py
 
 namespace Mofun.Generated.Code
@@ -823,6 +839,25 @@ def replacePretranslate (search_pattern_positions_0 : Vec3) (search_pattern_posi
 /-- translated from `replace_pattern_in_structure` in mofun/mofun.py (FRAGMENT for ONE atom: the wrap into the unit cell, `(new_atoms.positions.dot(np.linalg.inv(cell)) % 1.0).dot(cell)`; the inverse is expanded as adjugate / determinant) -/
 def replaceWrap (pos : Vec3) (cell : Mat3) : Vec3 :=
   (⟨((((Py.fmod1 (((pos.x * (((cell.b.y * cell.c.z) - (cell.b.z * cell.c.y)) / (((cell.a.x * ((cell.b.y * cell.c.z) - (cell.b.z * cell.c.y))) - (cell.a.y * ((cell.b.x * cell.c.z) - (cell.b.z * cell.c.x)))) + (cell.a.z * ((cell.b.x * cell.c.y) - (cell.b.y * cell.c.x)))))) + (pos.y * ((-((cell.b.x * cell.c.z) - (cell.b.z * cell.c.x))) / (((cell.a.x * ((cell.b.y * cell.c.z) - (cell.b.z * cell.c.y))) - (cell.a.y * ((cell.b.x * cell.c.z) - (cell.b.z * cell.c.x)))) + (cell.a.z * ((cell.b.x * cell.c.y) - (cell.b.y * cell.c.x))))))) + (pos.z * (((cell.b.x * cell.c.y) - (cell.b.y * cell.c.x)) / (((cell.a.x * ((cell.b.y * cell.c.z) - (cell.b.z * cell.c.y))) - (cell.a.y * ((cell.b.x * cell.c.z) - (cell.b.z * cell.c.x)))) + (cell.a.z * ((cell.b.x * cell.c.y) - (cell.b.y * cell.c.x)))))))) * cell.a.x) + ((Py.fmod1 (((pos.x * ((-((cell.a.y * cell.c.z) - (cell.a.z * cell.c.y))) / (((cell.a.x * ((cell.b.y * cell.c.z) - (cell.b.z * cell.c.y))) - (cell.a.y * ((cell.b.x * cell.c.z) - (cell.b.z * cell.c.x)))) + (cell.a.z * ((cell.b.x * cell.c.y) - (cell.b.y * cell.c.x)))))) + (pos.y * (((cell.a.x * cell.c.z) - (cell.a.z * cell.c.x)) / (((cell.a.x * ((cell.b.y * cell.c.z) - (cell.b.z * cell.c.y))) - (cell.a.y * ((cell.b.x * cell.c.z) - (cell.b.z * cell.c.x)))) + (cell.a.z * ((cell.b.x * cell.c.y) - (cell.b.y * cell.c.x))))))) + (pos.z * ((-((cell.a.x * cell.c.y) - (cell.a.y * cell.c.x))) / (((cell.a.x * ((cell.b.y * cell.c.z) - (cell.b.z * cell.c.y))) - (cell.a.y * ((cell.b.x * cell.c.z) - (cell.b.z * cell.c.x)))) + (cell.a.z * ((cell.b.x * cell.c.y) - (cell.b.y * cell.c.x)))))))) * cell.b.x)) + ((Py.fmod1 (((pos.x * (((cell.a.y * cell.b.z) - (cell.a.z * cell.b.y)) / (((cell.a.x * ((cell.b.y * cell.c.z) - (cell.b.z * cell.c.y))) - (cell.a.y * ((cell.b.x * cell.c.z) - (cell.b.z * cell.c.x)))) + (cell.a.z * ((cell.b.x * cell.c.y) - (cell.b.y * cell.c.x)))))) + (pos.y * ((-((cell.a.x * cell.b.z) - (cell.a.z * cell.b.x))) / (((cell.a.x * ((cell.b.y * cell.c.z) - (cell.b.z * cell.c.y))) - (cell.a.y * ((cell.b.x * cell.c.z) - (cell.b.z * cell.c.x)))) + (cell.a.z * ((cell.b.x * cell.c.y) - (cell.b.y * cell.c.x))))))) + (pos.z * (((cell.a.x * cell.b.y) - (cell.a.y * cell.b.x)) / (((cell.a.x * ((cell.b.y * cell.c.z) - (cell.b.z * cell.c.y))) - (cell.a.y * ((cell.b.x * cell.c.z) - (cell.b.z * cell.c.x)))) + (cell.a.z * ((cell.b.x * cell.c.y) - (cell.b.y * cell.c.x)))))))) * cell.c.x)), ((((Py.fmod1 (((pos.x * (((cell.b.y * cell.c.z) - (cell.b.z * cell.c.y)) / (((cell.a.x * ((cell.b.y * cell.c.z) - (cell.b.z * cell.c.y))) - (cell.a.y * ((cell.b.x * cell.c.z) - (cell.b.z * cell.c.x)))) + (cell.a.z * ((cell.b.x * cell.c.y) - (cell.b.y * cell.c.x)))))) + (pos.y * ((-((cell.b.x * cell.c.z) - (cell.b.z * cell.c.x))) / (((cell.a.x * ((cell.b.y * cell.c.z) - (cell.b.z * cell.c.y))) - (cell.a.y * ((cell.b.x * cell.c.z) - (cell.b.z * cell.c.x)))) + (cell.a.z * ((cell.b.x * cell.c.y) - (cell.b.y * cell.c.x))))))) + (pos.z * (((cell.b.x * cell.c.y) - (cell.b.y * cell.c.x)) / (((cell.a.x * ((cell.b.y * cell.c.z) - (cell.b.z * cell.c.y))) - (cell.a.y * ((cell.b.x * cell.c.z) - (cell.b.z * cell.c.x)))) + (cell.a.z * ((cell.b.x * cell.c.y) - (cell.b.y * cell.c.x)))))))) * cell.a.y) + ((Py.fmod1 (((pos.x * ((-((cell.a.y * cell.c.z) - (cell.a.z * cell.c.y))) / (((cell.a.x * ((cell.b.y * cell.c.z) - (cell.b.z * cell.c.y))) - (cell.a.y * ((cell.b.x * cell.c.z) - (cell.b.z * cell.c.x)))) + (cell.a.z * ((cell.b.x * cell.c.y) - (cell.b.y * cell.c.x)))))) + (pos.y * (((cell.a.x * cell.c.z) - (cell.a.z * cell.c.x)) / (((cell.a.x * ((cell.b.y * cell.c.z) - (cell.b.z * cell.c.y))) - (cell.a.y * ((cell.b.x * cell.c.z) - (cell.b.z * cell.c.x)))) + (cell.a.z * ((cell.b.x * cell.c.y) - (cell.b.y * cell.c.x))))))) + (pos.z * ((-((cell.a.x * cell.c.y) - (cell.a.y * cell.c.x))) / (((cell.a.x * ((cell.b.y * cell.c.z) - (cell.b.z * cell.c.y))) - (cell.a.y * ((cell.b.x * cell.c.z) - (cell.b.z * cell.c.x)))) + (cell.a.z * ((cell.b.x * cell.c.y) - (cell.b.y * cell.c.x)))))))) * cell.b.y)) + ((Py.fmod1 (((pos.x * (((cell.a.y * cell.b.z) - (cell.a.z * cell.b.y)) / (((cell.a.x * ((cell.b.y * cell.c.z) - (cell.b.z * cell.c.y))) - (cell.a.y * ((cell.b.x * cell.c.z) - (cell.b.z * cell.c.x)))) + (cell.a.z * ((cell.b.x * cell.c.y) - (cell.b.y * cell.c.x)))))) + (pos.y * ((-((cell.a.x * cell.b.z) - (cell.a.z * cell.b.x))) / (((cell.a.x * ((cell.b.y * cell.c.z) - (cell.b.z * cell.c.y))) - (cell.a.y * ((cell.b.x * cell.c.z) - (cell.b.z * cell.c.x)))) + (cell.a.z * ((cell.b.x * cell.c.y) - (cell.b.y * cell.c.x))))))) + (pos.z * (((cell.a.x * cell.b.y) - (cell.a.y * cell.b.x)) / (((cell.a.x * ((cell.b.y * cell.c.z) - (cell.b.z * cell.c.y))) - (cell.a.y * ((cell.b.x * cell.c.z) - (cell.b.z * cell.c.x)))) + (cell.a.z * ((cell.b.x * cell.c.y) - (cell.b.y * cell.c.x)))))))) * cell.c.y)), ((((Py.fmod1 (((pos.x * (((cell.b.y * cell.c.z) - (cell.b.z * cell.c.y)) / (((cell.a.x * ((cell.b.y * cell.c.z) - (cell.b.z * cell.c.y))) - (cell.a.y * ((cell.b.x * cell.c.z) - (cell.b.z * cell.c.x)))) + (cell.a.z * ((cell.b.x * cell.c.y) - (cell.b.y * cell.c.x)))))) + (pos.y * ((-((cell.b.x * cell.c.z) - (cell.b.z * cell.c.x))) / (((cell.a.x * ((cell.b.y * cell.c.z) - (cell.b.z * cell.c.y))) - (cell.a.y * ((cell.b.x * cell.c.z) - (cell.b.z * cell.c.x)))) + (cell.a.z * ((cell.b.x * cell.c.y) - (cell.b.y * cell.c.x))))))) + (pos.z * (((cell.b.x * cell.c.y) - (cell.b.y * cell.c.x)) / (((cell.a.x * ((cell.b.y * cell.c.z) - (cell.b.z * cell.c.y))) - (cell.a.y * ((cell.b.x * cell.c.z) - (cell.b.z * cell.c.x)))) + (cell.a.z * ((cell.b.x * cell.c.y) - (cell.b.y * cell.c.x)))))))) * cell.a.z) + ((Py.fmod1 (((pos.x * ((-((cell.a.y * cell.c.z) - (cell.a.z * cell.c.y))) / (((cell.a.x * ((cell.b.y * cell.c.z) - (cell.b.z * cell.c.y))) - (cell.a.y * ((cell.b.x * cell.c.z) - (cell.b.z * cell.c.x)))) + (cell.a.z * ((cell.b.x * cell.c.y) - (cell.b.y * cell.c.x)))))) + (pos.y * (((cell.a.x * cell.c.z) - (cell.a.z * cell.c.x)) / (((cell.a.x * ((cell.b.y * cell.c.z) - (cell.b.z * cell.c.y))) - (cell.a.y * ((cell.b.x * cell.c.z) - (cell.b.z * cell.c.x)))) + (cell.a.z * ((cell.b.x * cell.c.y) - (cell.b.y * cell.c.x))))))) + (pos.z * ((-((cell.a.x * cell.c.y) - (cell.a.y * cell.c.x))) / (((cell.a.x * ((cell.b.y * cell.c.z) - (cell.b.z * cell.c.y))) - (cell.a.y * ((cell.b.x * cell.c.z) - (cell.b.z * cell.c.x)))) + (cell.a.z * ((cell.b.x * cell.c.y) - (cell.b.y * cell.c.x)))))))) * cell.b.z)) + ((Py.fmod1 (((pos.x * (((cell.a.y * cell.b.z) - (cell.a.z * cell.b.y)) / (((cell.a.x * ((cell.b.y * cell.c.z) - (cell.b.z * cell.c.y))) - (cell.a.y * ((cell.b.x * cell.c.z) - (cell.b.z * cell.c.x)))) + (cell.a.z * ((cell.b.x * cell.c.y) - (cell.b.y * cell.c.x)))))) + (pos.y * ((-((cell.a.x * cell.b.z) - (cell.a.z * cell.b.x))) / (((cell.a.x * ((cell.b.y * cell.c.z) - (cell.b.z * cell.c.y))) - (cell.a.y * ((cell.b.x * cell.c.z) - (cell.b.z * cell.c.x)))) + (cell.a.z * ((cell.b.x * cell.c.y) - (cell.b.y * cell.c.x))))))) + (pos.z * (((cell.a.x * cell.b.y) - (cell.a.y * cell.b.x)) / (((cell.a.x * ((cell.b.y * cell.c.z) - (cell.b.z * cell.c.y))) - (cell.a.y * ((cell.b.x * cell.c.z) - (cell.b.z * cell.c.x)))) + (cell.a.z * ((cell.b.x * cell.c.y) - (cell.b.y * cell.c.x)))))))) * cell.c.z))⟩ : Vec3)
+
+/-- the default `max_delta=1e-05` of `find_unchanged_atom_pairs` -/
+def findUnchangedAtomPairs_default_max_delta : Rat := (Dec.toRat ⟨1, 5⟩)
+
+/-- translated from `find_unchanged_atom_pairs` in mofun/atoms.py; the structures are given by their position rows and their per-atom element lists (`Atoms.elements`); `none` = IndexError -/
+def findUnchangedAtomPairs (orig_structure_positions : List Vec3) (orig_structure_elements : List String) (final_structure_positions : List Vec3) (final_structure_elements : List String) (max_delta : Rat) : Option (List (Nat × Nat)) := do
+  let match_pairs : List (Nat × Nat) := []
+  let match_pairs ← Py.forFoldM? (Py.enumerate orig_structure_positions) match_pairs (fun match_pairs (i, p1) => do
+      let match_pairs ← Py.forBreakM? (Py.enumerate final_structure_positions) match_pairs (fun match_pairs (j, p2) => do
+          let t3 ← (if (Py.normLt (⟨(p2.x - p1.x), (p2.y - p1.y), (p2.z - p1.z)⟩ : Vec3) max_delta) then (do let t1 ← (orig_structure_elements[i]?); let t2 ← (final_structure_elements[j]?); pure (t1 == t2)) else (some false))
+          if t3 then
+            let match_pairs : List (Nat × Nat) := (match_pairs ++ [(i, j)])
+            pure (match_pairs, true)
+          else
+            pure (match_pairs, false)
+          )
+      pure match_pairs
+      )
+  pure match_pairs
 
 /-- translated from `replace_pattern_in_structure` in mofun/mofun.py (FRAGMENT: is the replacement empty, i.e. is this a pure deletion) -/
 def replaceEmptyBranch (replace_pattern_len : Nat) : Bool :=
